@@ -501,7 +501,12 @@ class RPCSession(SessionBase):
             result = RPCError(JSONRPC.INTERNAL_ERROR, 'internal server error')
 
         if isinstance(request, Request):
-            message = request.send_result(result)
+            try:
+                message = request.send_result(result)
+            except ProtocolError as e:
+                # The result cannot be encoded as JSON: answer with that error instead
+                result = e
+                message = request.send_result(result)
             if message:
                 await self._send_message(message)
         if isinstance(result, Exception):
